@@ -163,8 +163,17 @@ def run(chk):
             continue
         # otherwise ColFn.__init__ must remove it on every path on which it is present
         guard = None
+        # the test may read the keyword directly or through a local bound to the lookup (`v = ..get(kw); if v:`)
+        lookups = (f"context_kwargs.get('{kw}')", f"context_kwargs['{kw}']", f"'{kw}' in self.context_kwargs")
+        holders = {
+            t.id
+            for st_ in ast.walk(init) if isinstance(st_, ast.Assign) and any(lk in norm(st_.value) for lk in lookups)
+            for t in st_.targets if isinstance(t, ast.Name)
+        }  # fmt: skip
         for n in ast.walk(init):
-            if isinstance(n, ast.If) and f"context_kwargs.get('{kw}')" in norm(n.test):
+            if isinstance(n, ast.If) and (
+                any(lk in norm(n.test) for lk in lookups) or any(isinstance(x, ast.Name) and x.id in holders for x in ast.walk(n.test))
+            ):
                 guard = n
         removed_all = False
         detail = "no branch of ColFn.__init__ handles it"
